@@ -90,6 +90,16 @@ def seeded(prop):
             continue
         out.append(dict(id="S" + os.path.basename(d), props=[prop], tier="quick", patch=os.path.join(d, "patch.diff"), expect=exp,
                         what="seeded: " + meta.get("summary", "")[:100]))
+    # behaviour-preserving refactorings by sub-agents (/verif/benign/<prop>r<k>/): controls that must stay silent
+    for d in sorted(glob.glob(os.path.join(VERIF, "benign", prop + "*"))):
+        mf = os.path.join(d, "meta.json")
+        if not os.path.exists(mf) or not os.path.exists(os.path.join(d, "patch.diff")):
+            continue
+        meta = json.load(open(mf))
+        if meta.get("expected") != "silent":
+            continue  # stated limitation (loop <-> lo.* rewrite), see DESIGN.md 9.9
+        out.append(dict(id="B" + os.path.basename(d), props=[prop], tier="quick", patch=os.path.join(d, "patch.diff"), expect=[],
+                        what="control (refactoring): " + meta.get("summary", "")[:100]))
     return out
 
 
